@@ -595,6 +595,20 @@ Definition c_txview (v : option tx_view) : cell :=
                   CB (v_reverted v)]
   end.
 
+(* the jsonb value of get_aggregated_*_for_transaction: aggregate_objects merges the per-(account, asset) objects
+   {account: {asset: volumes}} at the TOP level, so of several assets of one account only the last group (in
+   (account, asset) order) survives; a group whose volumes are NULL contributes {account: null} *)
+Fixpoint json_collapse (l : list ((N * N) * vol)) : list ((N * N) * vol) :=
+  match l with
+  | [] => []
+  | x :: r => if existsb (fun y => N.eqb (fst (fst y)) (fst (fst x))) r then json_collapse r else x :: json_collapse r
+  end.
+Definition c_txvols (l : list ((N * N) * vol)) : cell :=
+  CL (map (fun kv => match snd kv with
+                     | (Some i, Some o) => CL [CN (fst (fst kv)); CN (snd (fst kv)); CL [CZ i; CZ o]]
+                     | _ => CL [CN (fst (fst kv)); CNull]
+                     end) (json_collapse l)).
+
 Inductive query :=
 | QMoves | QAccounts | QAccountsMetadata | QTransactions | QTransactionsMetadata | QLogs     (* table dumps *)
 | QAssets (l : N)
@@ -622,16 +636,16 @@ Definition run_query (d : db) (q : query) : cell :=
   | QVolumes l a b => c_vols (get_all_account_volumes d l a b)
   | QEffVolumes l a b => c_vols (get_all_account_effective_volumes d l a b)
   | QBalance l a s b => c_oz (get_account_balance d l a s b)
-  | QTxVolumes l t =>
-      CL (map (fun kv => CL [CN (fst (fst kv)); CN (snd (fst kv)); c_vol (snd kv)])
-              (get_aggregated_volumes_for_transaction d l t))
-  | QTxEffVolumes l t =>
-      CL (map (fun kv => CL [CN (fst (fst kv)); CN (snd (fst kv)); c_vol (snd kv)])
-              (get_aggregated_effective_volumes_for_transaction d l t))
+  | QTxVolumes l t => c_txvols (get_aggregated_volumes_for_transaction d l t)
+  | QTxEffVolumes l t => c_txvols (get_aggregated_effective_volumes_for_transaction d l t)
   | QAggLedger l b => c_vols (aggregate_ledger_volumes d l b)
-  | QAggBalances l p => c_vols (aggregated_volumes d l p)
-  | QAccount l a => c_ometa (get_account d l a)
-  | QAccountPit l a p => match get_account_pit d l a p with None => CNull | Some m => CL [c_ometa m] end
+  (* GetAggregatedBalances reports inputs - outputs per asset *)
+  | QAggBalances l p =>
+      CL (map (fun kv => CL [CN (fst kv); c_oz (osub (fst (snd kv)) (snd (snd kv)))]) (aggregated_volumes d l p))
+  (* GetAccount / GetAccountWithVolumes answer an empty account when there is no row, and a NULL metadata scans
+     into an empty map *)
+  | QAccount l a => c_meta (match get_account d l a with Some m => m | None => [] end)
+  | QAccountPit l a p => c_meta (match get_account_pit d l a p with Some (Some m) => m | _ => [] end)
   | QTx l id => c_txview (get_transaction d l id)
   | QTxPit l id p => c_txview (get_transaction_pit d l id p)
   end.
